@@ -60,6 +60,11 @@ func tableConcat(L *LState) int {
 			return 1
 		}
 	}
+	if i > j {
+		// an empty range is empty wherever it lies (the clamping below would pull i = #t+1 back onto the last element)
+		L.Push(emptyLString)
+		return 1
+	}
 	i = intMax(intMin(i, tbl.Len()), 1)
 	j = intMin(intMin(j, tbl.Len()), tbl.Len())
 	if i > j {
